@@ -128,6 +128,9 @@ def generate(seed: int, run: int, tier: str) -> dict:
             op["thread"] = True  # this creation happens in another (joined) thread of the process
         ops.append(op)
     env = {"hashseed": rng.choice([0, 1, 7]), "cache": rng.choice([1000, 1000, 20])}
+    if rng.random() < 0.12:
+        # environment fault: SymPy's cache switched off for the whole process (SYMPY_USE_CACHE=no)
+        env = {"hashseed": env["hashseed"], "cache": 1000, "environ": {"SYMPY_USE_CACHE": "no"}}
     return {"prop": PROP, "seed": seed, "run": run, "env": env, "timeout": 180, "ops": ops, "final": True}
 
 
@@ -913,6 +916,9 @@ def child_run(job: dict) -> dict:
     displays = sorted(str(r["obj"].display_name) for r in model.recs if r["kind"] not in ("coordsys", "wrapper", "xcoordsys") and not r["defaulted"])
     collisions = len(displays) - len(set(displays))
     f = state["faults"]
+    from .c14_vectors import _cache_really_off  # pylint: disable=import-outside-toplevel
+    if _cache_really_off():
+        f["sympy_cache_off_run"] = 1
     fired = sum(f.values())
     from .observe import COUNTERS as ids  # pylint: disable=import-outside-toplevel
     digit_class = ",".join(f"{p}{str(ids.get(p, 0))[0]}x{len(str(ids.get(p, 0)))}" for p in ("SYM", "FUN", "QTY", "SYS", "VEC"))
